@@ -99,12 +99,65 @@ pub fn run_case(ctx: &Ctx, prog: &Program, tuples: &[Vec<i64>]) -> CaseResult {
     }
 }
 
+/// second domain: directly generated non-linear programs
+pub fn run_direct(ctx: &Ctx, bytes: &[u8]) -> CaseResult {
+    let fuel = ctx.tier.pick(100_000, 300_000);
+    let (prog, tuples) = crate::gen_axcut::gen_nonlinear(bytes, crate::gen_axcut::NlCfg { size: ctx.tier.pick(30, 50), max_main_params: 4, max_env: 20 }, 2);
+    let fail = |kind: &str, summary: String, details: serde_json::Value| CaseResult::Fail(Failure { kind: kind.into(), summary, details });
+    if let Err(e) = tc_axcut::check_named(&prog).and_then(|_| tc_axcut::check_binders_unique(&prog)) {
+        return fail("harness", format!("harness error: generated non-linear program is ill-formed: {e}"), json!({"axcut": printer::Print::print_to_string(&prog, None)}));
+    }
+    let linear = match pipeline::linearize(prog.clone()) {
+        Ok(l) => l,
+        Err(e) => return fail("internal", format!("{e}"), json!({"axcut": printer::Print::print_to_string(&prog, None)})),
+    };
+    let dump = || json!({"axcut": printer::Print::print_to_string(&prog, None), "linearized": printer::Print::print_to_string(&linear, None)});
+    if let Err(e) = tc_axcut::check_linear(&linear) {
+        return fail("linear-typing", format!("linearized program is not well-typed under the ordered linear discipline: {e}"), dump());
+    }
+    let mut any = false;
+    let mut nontrivial = false;
+    let mut classes = vec!["direct generator".to_string()];
+    for t in &tuples {
+        let (o, st) = mach_axcut::run_named(&prog, t, fuel);
+        match &o {
+            Outcome::Stuck(s) => return fail("harness", format!("harness error: generated program stuck: {s}"), dump()),
+            Outcome::Done { .. } => {}
+            _ => continue,
+        }
+        any = true;
+        let (o2, st2, _) = mach_axcut::run_positional(&linear, t, st.steps * 20 + 100_000);
+        if let Some(why) = compare(&o, &o2) {
+            let mut d = dump();
+            d["args"] = json!(t);
+            d["expected"] = outcome_json(&o);
+            d["observed"] = outcome_json(&o2);
+            return fail("mismatch", format!("linearized program differs from the non-linear one (args {t:?}): {why}"), d);
+        }
+        if st2.dup_objects + st2.drop_objects > 0 {
+            nontrivial = true;
+        }
+        if st2.dup_objects > 0 {
+            classes.push("substitute-duplicates-object".to_string());
+        }
+        if st2.drop_objects > 0 {
+            classes.push("substitute-drops-object".to_string());
+        }
+    }
+    if !any {
+        return CaseResult::Discard("undefined or over budget".into());
+    }
+    classes.sort();
+    classes.dedup();
+    CaseResult::Pass { nontrivial, hash: hash_str(&printer::Print::print_to_string(&prog, None)), classes, sample: None }
+}
+
 pub fn check(ctx: &Ctx) -> i32 {
     let start = Instant::now();
     let mut ev = Evidence::default();
     ev.rule = "non-linear AxCut programs produced by the pipeline from generated Fun programs; oracles: (1) named AxCut machine on the input vs positional/linear machine on Prog::linearize() (output, result, termination); (2) a static checker over every path of the linearized program implementing what the code generators read off positions (call: callee's parameters; invoke: arguments then closure; let: rest then arguments; switch: rest then scrutinee, clauses in declaration order; create: rest then captured environment; operands present; kinds and types agree; only substitute duplicates/drops). Non-trivial: the run executed a substitute that duplicates or drops an object variable; distinct by hash of (source, arguments).".into();
     ev.assumptions = vec!["AxCut machines as in DESIGN.md 3.3".into()];
-    let n = ctx.tier.pick(3000, 60000);
+    let n = ctx.tier.pick(6000, 60000);
     let run = |b: &[u8]| {
         let c = decode(ctx, b);
         run_case(ctx, &c.prog, &c.tuples)
@@ -117,10 +170,21 @@ pub fn check(ctx: &Ctx) -> i32 {
         eprintln!("{}", f2.summary);
         report.violations.push(write_replay_with(ctx, "linearize", &bytes, &f2, fun_case_json(&c2)));
     }
+    if report.violations.is_empty() {
+        let n2 = ctx.tier.pick(4000, 60000);
+        let out2 = drive(&mut ev, ctx.seed, 105, n2, 60, 2500, 400, &|b| run_direct(ctx, b));
+        if let Some((bytes, f)) = out2.failure {
+            eprintln!("{}", f.summary);
+            report.violations.push(write_replay(ctx, "direct", &bytes, &f));
+        }
+    }
     finish(ctx, &ev, &report, start)
 }
 
-pub fn replay(ctx: &Ctx, _sub: &str, bytes: &[u8], case: &serde_json::Value) -> CaseResult {
+pub fn replay(ctx: &Ctx, sub: &str, bytes: &[u8], case: &serde_json::Value) -> CaseResult {
+    if sub.starts_with("direct") {
+        return run_direct(ctx, bytes);
+    }
     let c = fun_case_from_json(case).unwrap_or_else(|| decode(ctx, bytes));
     run_case(ctx, &c.prog, &c.tuples)
 }
